@@ -197,7 +197,7 @@ impl Tables {
         })
     }
 
-    // Direct construction of a BoardState from a specification position (no FEN loader involved).
+    // Construction of a BoardState from a specification position.
     pub fn build(&self, v: &Value) -> BoardState {
         let mut board = [[Square::Boundary; 12]; 12];
         let mut wk = Point(0, 0);
@@ -225,25 +225,62 @@ impl Tables {
         }
         let cr = v["cr"].as_u64().unwrap_or(0);
         let ep = v["ep"].as_u64().unwrap_or(0) as u32;
-        let mut b = BoardState {
-            board,
-            to_move: if v["stm"].as_u64().unwrap_or(0) == 0 {
-                PieceColor::White
-            } else {
-                PieceColor::Black
-            },
-            pawn_double_move: if ep == 0 { None } else { Some(point_of(ep)) },
-            white_king_location: wk,
-            black_king_location: bk,
-            white_king_side_castle: cr & 1 != 0,
-            white_queen_side_castle: cr & 2 != 0,
-            black_king_side_castle: cr & 4 != 0,
-            black_queen_side_castle: cr & 8 != 0,
-            order_heuristic: 0,
-            last_move: None,
-            pawn_promotion: None,
-            zobrist_key: 0,
+        // The object is taken from the engine's own loader for the same position (so that fields this harness does not
+        // know - caches a later version may add - are whatever the engine itself derives for it; a struct literal would
+        // stop compiling the day a field is added), then every field the specification talks about is overwritten
+        // directly, so that a defect of the loader cannot leak into what is built here.
+        let stm_white = v["stm"].as_u64().unwrap_or(0) == 0;
+        let mut fen = String::new();
+        for row in BOARD_START..BOARD_END {
+            let mut run = 0;
+            for col in BOARD_START..BOARD_END {
+                let c = piece_code(board[row][col]);
+                if c == 0 {
+                    run += 1;
+                } else {
+                    if run > 0 {
+                        fen.push_str(&run.to_string());
+                        run = 0;
+                    }
+                    fen.push(b"PNBRQKpnbrqk"[(c - 1) as usize] as char);
+                }
+            }
+            if run > 0 {
+                fen.push_str(&run.to_string());
+            }
+            if row + 1 < BOARD_END {
+                fen.push('/');
+            }
+        }
+        let mut rights = String::new();
+        for (bit, ch) in [(1u64, 'K'), (2, 'Q'), (4, 'k'), (8, 'q')] {
+            if cr & bit != 0 {
+                rights.push(ch);
+            }
+        }
+        if rights.is_empty() {
+            rights.push('-');
+        }
+        let epname = if ep == 0 { "-".to_string() } else { format!("{}{}", (b'a' + ((ep - 1) % 8) as u8) as char, (ep - 1) / 8 + 1) };
+        let fen = format!("{} {} {} {} 0 1", fen, if stm_white { "w" } else { "b" }, rights, epname);
+        let loaded = std::panic::catch_unwind(|| BoardState::from_fen(&fen).ok()).ok().flatten();
+        let mut b = match loaded {
+            Some(b) => b,
+            None => BoardState::from_fen("8/8/8/8/8/8/8/8 w - - 0 1").expect("no template board from the loader"),
         };
+        b.board = board;
+        b.to_move = if stm_white { PieceColor::White } else { PieceColor::Black };
+        b.pawn_double_move = if ep == 0 { None } else { Some(point_of(ep)) };
+        b.white_king_location = wk;
+        b.black_king_location = bk;
+        b.white_king_side_castle = cr & 1 != 0;
+        b.white_queen_side_castle = cr & 2 != 0;
+        b.black_king_side_castle = cr & 4 != 0;
+        b.black_queen_side_castle = cr & 8 != 0;
+        b.order_heuristic = 0;
+        b.last_move = None;
+        b.pawn_promotion = None;
+        b.zobrist_key = 0;
         b.zobrist_key = self.scratch_key(&b);
         b
     }
